@@ -57,3 +57,7 @@ add("C12", "exploration", "complete enumeration of every numeric field range plu
     "Every value of each numeric field (customer 0..99999, project/device 0..9999, version 0..99) is printed, parsed and re-printed with the other fields on 3 tuples; 12 adversarial names x the full boundary product; every single-character deletion/substitution of 6 canonical texts and all strings of length <= 4 over an 8-symbol alphabet; all 2^7 subsets of the naming values x byte widths x names for project and device settings, against a reference model.",
     "Texts with a lenient reading (trailing garbage) may be accepted or rejected; the reference semantics of the naming scheme are taken from the statement and the code's documented behaviour.",
     "E1", "DESIGN.md 4/C12")
+add("C11", "model_checking", "explicit-state BFS over operation histories of a real Bec2File with canonical-state hashing and a reference state",
+    "Breadth-first search to depth 4 (thorough 6) over 21 operations (set configuration x4, derive comments x4, derive auth blocks x8, append/insert firmware with/without TYPE tag, write+read back); after every transition the real object is compared with a reference state (one configuration component, last, decoding to the latest configuration; other components untouched; derived comments; auth-block rules).",
+    "State merging by observable fields (components, comments, auth blocks); at most 3 firmware components; reference TLV decoder and identifier model trusted.",
+    "E2", "DESIGN.md 4/C11")
